@@ -407,6 +407,26 @@ theorem val_eq_spec (S : Solver α) (env : String → α) (m : M α) (x : α) :
     funext f
     exact ih f
 
+/-- the same for the parameter validation (`ValueError` guards): index routing = lookup by name -/
+theorem check_eq_spec (env : String → α) (m : M α) :
+    m.check (m.params.map env) = m.checkSpec env := by
+  induction m with
+  | base k n => rfl
+  | add l r ihl ihr =>
+    simp only [M.check, M.checkSpec]
+    rw [route_map env _ l.params (fun p hp => by
+          simp only [M.params]; exact mem_dedup.mpr (List.mem_append_left _ hp)),
+        route_map env _ r.params (fun p hp => by
+          simp only [M.params]; exact mem_dedup.mpr (List.mem_append_right _ hp)),
+        ihl, ihr]
+  | off m ih =>
+    simp only [M.check, M.checkSpec]
+    rw [route_map env _ m.params (fun p hp => by
+          simp only [M.params]; exact mem_dedup.mpr (List.mem_cons_of_mem _ hp)), ih]
+  | inv m lo hi interp ih =>
+    simp only [M.check, M.checkSpec, M.params]
+    rw [ih]
+
 end routing
 
 
